@@ -16,6 +16,7 @@
 #include <map>
 
 #include <occa.h>
+#include <occa/c/experimental.h>
 #include <occa/internal/c/types.hpp>
 
 // ---------------------------------------------------------------- helpers
@@ -280,6 +281,138 @@ static std::string kernelRun(int mode, const std::vector<std::string> &f) {
   return s.str();
 }
 
+
+// ---------------------------------------------------------------- scopes
+// "[const ]<type> [*]x"  ->  decl:<const>:<type>:<ptr>   (read from the scope's own entries: the text that
+// kernelBuilder pastes into the inlined kernel's signature)
+static std::string declType(const std::string &decl, bool &isConst, bool &isPtr) {
+  std::string d = decl;
+  isConst = d.compare(0, 6, "const ") == 0;
+  if (isConst) d = d.substr(6);
+  size_t sp = d.find_last_of(' ');
+  std::string type = (sp == std::string::npos) ? d : d.substr(0, sp);
+  std::string rest = (sp == std::string::npos) ? "" : d.substr(sp + 1);
+  isPtr = (!rest.empty() && rest[0] == '*') || (!type.empty() && type.back() == '*');
+  while (!type.empty() && (type.back() == '*' || type.back() == ' ')) type.pop_back();
+  if (type == "unsigned char") return "uchar";
+  if (type == "unsigned short") return "ushort";
+  if (type == "unsigned int") return "uint";
+  if (type == "unsigned long") return "ulong";
+  for (auto &c : type) if (c == ' ') c = '_';
+  return type;
+}
+
+static std::string scopeDecl(bool isConst, const std::string &litText) {
+  Lit l; if (!parseLit(litText, l)) return "BAD";
+  occaScope sc = occaCreateScope(occaDefault);
+  std::string out;
+  try {
+    if (isConst) occaScopeAddConst(sc, "x", l.v); else occaScopeAdd(sc, "x", l.v);
+    occa::scope &s = occa::c::scope(sc);
+    bool c, p;
+    std::string t = declType(s.args.back().getDeclaration(), c, p);
+    out = std::string("decl:") + (c ? "1" : "0") + ":" + t + ":" + (p ? "1" : "0");
+  } catch (...) {
+    out = "ERR";
+  }
+  occaFree(&sc);
+  return out;
+}
+
+static const char *SCOPE_S_SRC =
+  "for (int i = 0; i < 1; ++i; @tile(1, @outer, @inner)) {"
+  " iout[0] = a0 ? 1 : 0; iout[1] = a1; iout[2] = a2; iout[3] = a3; iout[4] = a4; dout[0] = a5; dout[1] = a6;"
+  " iout[8] = sizeof(a0); iout[9] = sizeof(a1); iout[10] = sizeof(a2); iout[11] = sizeof(a3); iout[12] = sizeof(a4);"
+  " iout[13] = sizeof(a5); iout[14] = sizeof(a6); }";
+static const char *SCOPE_U_SRC =
+  "for (int i = 0; i < 1; ++i; @tile(1, @outer, @inner)) {"
+  " iout[0] = a0; iout[1] = a1; iout[2] = a2; iout[3] = a3;"
+  " iout[8] = sizeof(a0); iout[9] = sizeof(a1); iout[10] = sizeof(a2); iout[11] = sizeof(a3); }";
+
+static bool scopeReady = false;
+static occaKernelBuilder kbS, kbU;
+static occaMemory sI, sD;
+
+static void ensureScope() {
+  if (scopeReady) return;
+  kbS = occaCreateKernelBuilder(SCOPE_S_SRC, "scope_s");
+  kbU = occaCreateKernelBuilder(SCOPE_U_SRC, "scope_u");
+  sI = occaTypedMalloc(16, occaDtypeLong, NULL, occaDefault);
+  sD = occaTypedMalloc(4, occaDtypeDouble, NULL, occaDefault);
+  scopeReady = true;
+}
+
+static void freeScope() {
+  if (!scopeReady) return;
+  occaFree(&kbS); occaFree(&kbU); occaFree(&sI); occaFree(&sD);
+  scopeReady = false;
+}
+
+static const char *SHAPE_S[7] = {"b", "i8", "i16", "i32", "i64", "f32", "f64"};
+static const char *SHAPE_U[4] = {"u8", "u16", "u32", "u64"};
+
+static std::string scopeRun(bool isConst, const std::vector<std::string> &f) {
+  const size_t n = f.size() - 1;
+  const char **shape = (n == 7) ? SHAPE_S : (n == 4) ? SHAPE_U : NULL;
+  if (!shape) return "BAD";
+  std::vector<Lit> lits;
+  for (size_t i = 0; i < n; ++i) {
+    if (f[1 + i].compare(0, strlen(shape[i]) + 1, std::string(shape[i]) + ":") != 0) return "BAD";
+    Lit l; if (!parseLit(f[1 + i], l)) return "BAD";
+    lits.push_back(l);
+  }
+  ensureScope();
+  long ri[16]; double rd[4];
+  memset(ri, 0x55, sizeof(ri)); memset(rd, 0x55, sizeof(rd));
+  occaCopyPtrToMem(sI, ri, occaAllBytes, 0, occaDefault);
+  occaCopyPtrToMem(sD, rd, occaAllBytes, 0, occaDefault);
+  occaScope sc = occaCreateScope(occaDefault);
+  std::string out;
+  try {
+    occaScopeAdd(sc, "iout", sI);
+    occaScopeAdd(sc, "dout", sD);
+    for (size_t i = 0; i < n; ++i) {
+      const std::string name = "a" + std::to_string(i);
+      if (isConst) occaScopeAddConst(sc, name.c_str(), lits[i].v); else occaScopeAdd(sc, name.c_str(), lits[i].v);
+    }
+    std::vector<std::string> types;
+    {
+      occa::scope &s = occa::c::scope(sc);
+      for (size_t i = 0; i < n; ++i) { bool c, p; types.push_back(declType(s.args[2 + i].getDeclaration(), c, p)); }
+    }
+    occaKernelBuilderRun(n == 7 ? kbS : kbU, sc);
+    occaCopyMemToPtr(ri, sI, occaAllBytes, 0, occaDefault);
+    occaCopyMemToPtr(rd, sD, occaAllBytes, 0, occaDefault);
+    std::ostringstream s;
+    s << "[";
+    for (size_t i = 0; i < n; ++i) {
+      if (i) s << "|";
+      const std::string &t = types[i];
+      const long sz = ri[8 + i];
+      const bool fslot = (n == 7 && i >= 5);
+      if (t == "float")       { float x = (float) rd[i - 5]; uint32_t u; memcpy(&u, &x, 4); s << "float:" << sz << ":0:" << hex32(u); }
+      else if (t == "double") { uint64_t u; memcpy(&u, &rd[i - 5], 8); s << "double:" << sz << ":0:" << hex64(u); }
+      else if (fslot)         { s << t << ":" << sz << ":0:" << (long) rd[i - 5]; }
+      else if (t == "bool")   { s << "bool:" << sz << ":0:" << ri[i]; }
+      else if (t == "char")   { s << "int8:" << sz << ":0:" << ri[i]; }
+      else if (t == "short")  { s << "int16:" << sz << ":0:" << ri[i]; }
+      else if (t == "int")    { s << "int32:" << sz << ":0:" << ri[i]; }
+      else if (t == "long")   { s << "int64:" << sz << ":0:" << ri[i]; }
+      else if (t == "uchar")  { s << "uint8:" << sz << ":0:" << (unsigned long) ri[i]; }
+      else if (t == "ushort") { s << "uint16:" << sz << ":0:" << (unsigned long) ri[i]; }
+      else if (t == "uint")   { s << "uint32:" << sz << ":0:" << (unsigned long) ri[i]; }
+      else if (t == "ulong")  { s << "uint64:" << sz << ":0:" << (unsigned long) ri[i]; }
+      else                    { s << t << ":" << sz << ":0:" << ri[i]; }
+    }
+    s << "]";
+    out = s.str();
+  } catch (...) {
+    out = "ERR";
+  }
+  occaFree(&sc);
+  return out;
+}
+
 // ---------------------------------------------------------------- one case
 static occaType slot[16];
 static std::map<void*, occaType> liveRoots;   // heap objects made by occaCreateJson and not yet freed
@@ -335,6 +468,8 @@ static std::string doOp(const std::string &tok) {
       occa::kernelArg a = occa::c::kernelArg(l.v);
       return viewKarg(a, l);
     }
+    if ((name == "SDc" || name == "SDa") && f.size() == 2) return scopeDecl(name == "SDc", f[1]);
+    if (name == "SCc" || name == "SCa") return scopeRun(name == "SCc", f);
     if (name.size() == 3 && name.compare(0, 2, "KR") == 0) {
       return kernelRun(name[2] - '0', f);
     }
@@ -479,5 +614,6 @@ int main() {
     std::cout << "R " << out.str() << std::endl;
   }
   freeKernels();
+  freeScope();
   return 0;
 }
